@@ -96,7 +96,7 @@ def run(tier, replay=None):
         tags[0] = d.get("tags", [])
     else:
         cases = []
-        for i in range(400 if quick else 6000):
+        for i in range(400 if quick else 2500):
             src, tg, twin = gen01.program(rng, size=rng.randint(2, 8))
             cases.append(convcorr.Case(src, "generated"))
             tags[len(cases) - 1] = tg
